@@ -9,12 +9,21 @@ PID = "C05"
 IMPORTS = "From OV Require Import Model.Vector Model.Matrix Model.Tridiag."
 MODEL_VO = ["Model/Tridiag.vo"]
 EXHAUSTIVE = False
-RULE = ("kinds tri.ctor/views/sets/arith/mul/solve/empty for n = 1..12 (every n in every family over Rat and in every float mul/solve family; the float instances of views/sets/arith on n in {1,2,3,4,6,9,12} in the quick tier, every n in the thorough tier; constructors also n = 0 and "
+RULE = ("kinds tri.ctor/views/sets/arith/mul/solve/empty/hist for n = 1..12 (every n in every family over Rat and in every float mul/solve family; the float instances of views/sets/arith on n in {1,2,3,4,6,9,12} in the quick tier, every n in the thorough tier; constructors also n = 0 and "
         "mismatched diagonal lengths); Rat (exact, vs Qc model), f64 and Complex<f64> (vs primitive-float model); views = every (i,j) in "
         "[0,n]x[0,n] (one past the end included) + convert + transpose + det; solve families: diagonally dominant, random with zero "
         "sub/super-diagonal entries, a zero pivot forced at every step k = 0..n-1 for every n (Rat: by the exact recurrence; floats: by a "
-        "zero off-diagonal and zero diagonal entry), mismatched right-hand sides; distinct = distinct executor line; non-trivial = n >= 2 "
-        "or a case that must panic")
+        "zero off-diagonal and zero diagonal entry), mismatched right-hand sides; "
+        "structured families (n = 1..4 and a seeded rotation of three larger sizes; thorough: every n) over Rat, f64 and Complex<f64>: matrices with constant diagonals "
+        "(the unit tests' class), equal magnitudes with random signs / axes, entries from {0,-0.0,1,-1,2,1/2,...; +-i, 0.6+0.8i}, s*tridiag(-1,2,-1), s*I, diagonal matrices with zeros on the diagonal, f64/complex "
+        "entries alternating between 2^200 and 2^-200, x vectors / right-hand sides (zero, ones, alternating, a unit vector, first/last only, special draws) in views, mul "
+        "and solve; strictly dominant systems with special off-diagonals (also at 2^+-(150..400)); arithmetic with every special scalar (0, -0.0, 1, -1, 2, 1/2, +-i, unit "
+        "modulus) and mismatched sizes over f64 and Complex<f64> too; kind tri.hist: every ordered pair of the 17 mutating operations (IndexMut on each diagonal, "
+        "transpose_in_place, transpose, clone, += -= *= /= s, neg, T*s, T/s, s*T, T+T2, T-T2, resize) over every constructor (with_vecs, with_vectors, with_elements, "
+        "new + IndexMut), the state dumped after the first and all views (accessors, every index, convert, transpose, det, product, solve) taken after the second "
+        "(quick: a seeded third of the 289 pairs; thorough: all).  Float oracles: f64 arithmetic (s*T included) must equal the one IEEE operation per stored entry, "
+        "complex products/quotients to 1e-13, complex det to 1e-11*perm|T| against exact Q(i) elimination, and a structurally zero pivot (zero diagonal entry next to a zero "
+        "off-diagonal entry) must be refused over floats as well.  distinct = distinct executor line; non-trivial = n >= 2 or a case that must panic")
 TRUSTED = ["Coq 8.16.1 kernel + vm_compute", "Rust executor /verif/harness (Rat = i128 rationals; panic message captured per call)",
            "python driver: generators, dense Fraction reference (own elimination / own pivot recurrence), stream comparators",
            "hand-written Gallina model coq/Model/Tridiag.v tied to src/tridiagonal.rs by differential execution (Rat vs Qc exact incl. panic class "
@@ -50,7 +59,8 @@ MANIFEST = dict(
           "u <= 1/64 per operation) the computed x solves (T+dT)x = r exactly with |dT| <= u(3|a|, 5|b|+9|a*gamma|, 5|c|), and |gamma| <= 1, "
           "i.e. |dT| = O(u)|T|, for diagonally dominant T (with margin), and a strictly dominant T (with margin) is never refused there either.  The same definitions are run against the implementation for "
           "n = 1..12 over Rat (exact; panic class and refusal message compared), f64 and Complex<f64> (bit-compared with Coq's primitive "
-          "floats), and a dense Fraction reference searches for a failing input."),
+          "floats), and a dense Fraction reference searches for a failing input (also on structured classes: special values, constant / equal-magnitude diagonals, "
+          "structured vectors, extreme scales, special scalars, and histories of every ordered pair of mutating operations followed by every view)."),
     note=("Proved: all of the above about the model.  Tied/searched only: that the model is the code (differential execution on every run); "
           "backward stability of the IEEE f64/Complex<f64> instance itself (the stability theorems are in the standard model of rounding, no "
           "underflow/overflow; oracle bound 1e-11 normwise on the IEEE instance) and the accuracy of the f64 det (oracle bound 1e-11 * perm|T|); "
@@ -150,6 +160,207 @@ def force_zero_pivot_float(rng, elt, n, k):
         else: sup[k - 1] = z
     return (sub, main, sup)
 
+# ------------------------------------------------------------------ special value classes (structured families)
+# Every scalar argument and every stored entry is also drawn from the classes a fast path or a sign/zero test can key on:
+# 0, -0.0, 1, -1, 2, 1/2 (and their negatives); complex: the four axes (+-k, +-ki), unit modulus off the axes (0.6+0.8i), -0.0 parts.
+SPECIAL = {
+    'rat': [Fraction(0), Fraction(1), Fraction(-1), Fraction(2), Fraction(1, 2), Fraction(-2), Fraction(-1, 2)],
+    'f64': [0.0, -0.0, 1.0, -1.0, 2.0, 0.5, -2.0, -0.5],
+    'cplx': [0j, complex(-0.0, 0.0), complex(0.0, -0.0), 1 + 0j, -1 + 0j, 1j, -1j, 2 + 0j, 0.5j, -2j, complex(-0.5, 0.0),
+             complex(0.6, 0.8), complex(-0.6, 0.8), complex(0.8, -0.6)],
+}
+
+def sp(rng, elt, nz=False):
+    while True:
+        x = rng.choice(SPECIAL[elt])
+        if x != 0 or not nz: return x
+
+def unit_of(elt, x):
+    return Fraction(x) if elt == 'rat' else (float(x) if elt == 'f64' else complex(x))
+
+def special_tri(rng, elt, n, shape):
+    """three diagonals of a structured class:
+       const     constant diagonals (Toeplitz; the class every unit test of the crate uses), values from SPECIAL
+       pm        every entry has the same magnitude, signs (complex: axes) at random -- ties everywhere
+       unit      every entry drawn from SPECIAL (many zeros, ones, minus ones)
+       laplace   s * tridiag(-1, 2, -1): weakly dominant, equal off-diagonals
+       identity  s * I (zero off-diagonals)
+       diagonal  zero off-diagonals under a diagonal of special values (zeros at any position: every pivot is the diagonal entry itself)
+       hugetiny  floats only: entries alternate between 2^+200 and 2^-200 times a small integer"""
+    z = zero_of(elt)
+    if shape == "const":
+        a, b, c = sp(rng, elt), sp(rng, elt), sp(rng, elt)
+        return ([a] * (n - 1), [b] * n, [c] * (n - 1))
+    if shape == "pm":
+        m = unit_of(elt, rng.choice([1, 2, 3])) if elt != 'rat' else Fraction(rng.choice([1, 2, 3]), rng.choice([1, 2]))
+        def e():
+            if elt == 'cplx': return m * rng.choice([1, -1, 1j, -1j])
+            return m if rng.chance(1, 2) else -m
+        return ([e() for _ in range(n - 1)], [e() for _ in range(n)], [e() for _ in range(n - 1)])
+    if shape == "unit":
+        return ([sp(rng, elt) for _ in range(n - 1)], [sp(rng, elt) for _ in range(n)], [sp(rng, elt) for _ in range(n - 1)])
+    if shape == "laplace":
+        f = sp(rng, elt, nz=True)
+        return ([-f] * (n - 1), [2 * f] * n, [-f] * (n - 1))
+    if shape == "identity":
+        f = sp(rng, elt)
+        return ([z] * (n - 1), [f] * n, [z] * (n - 1))
+    if shape == "diagonal":
+        return ([z] * (n - 1), [sp(rng, elt) for _ in range(n)], [z] * (n - 1))
+    if shape == "hugetiny":
+        def e(k):
+            x = float(rng.range(-3, 3)) * (2.0 ** 200 if (k + rng.below(2)) % 2 == 0 else 2.0 ** -200)
+            return x if elt == 'f64' else complex(x, 0.0 if rng.chance(1, 2) else float(rng.range(-2, 2)) * 2.0 ** -200)
+        return ([e(i) for i in range(n - 1)], [e(i + 1) for i in range(n)], [e(i) for i in range(n - 1)])
+    raise ValueError(shape)
+
+SHAPES = ["const", "pm", "unit", "laplace", "identity", "diagonal"]
+
+def special_vec(rng, elt, n, k):
+    """structured vectors: 0 zero, 1 all ones, 2 alternating signs, 3 a unit vector, 4 first/last only, 5 special draws"""
+    one = unit_of(elt, 1); z = zero_of(elt)
+    if k == 0: return [z] * n
+    if k == 1: return [one] * n
+    if k == 2: return [one if i % 2 == 0 else -one for i in range(n)]
+    if k == 3:
+        j = rng.below(n); return [one if i == j else z for i in range(n)]
+    if k == 4: return [(sp(rng, elt, nz=True) if i in (0, n - 1) else z) for i in range(n)]
+    return [sp(rng, elt) for _ in range(n)]
+
+def special_dominant(rng, elt, n):
+    """strictly diagonally dominant with off-diagonals from SPECIAL and a diagonal on an axis: |b_i| = |a_i| + |c_i| + 1"""
+    sub = [sp(rng, elt) for _ in range(n - 1)]
+    sup = [sp(rng, elt) for _ in range(n - 1)]
+    main = []
+    for i in range(n):
+        a = abs(sub[i - 1]) if i > 0 else 0
+        c = abs(sup[i]) if i < n - 1 else 0
+        if elt == 'rat':
+            m = Fraction(a) + Fraction(c) + 1
+            main.append(m if rng.chance(1, 2) else -m)
+        else:
+            m = float(a) + float(c) + 1.0
+            if elt == 'f64': main.append(m if rng.chance(1, 2) else -m)
+            else: main.append(m * 1.0001 * rng.choice([1, -1, 1j, -1j, complex(0.6, 0.8)]))
+    return (sub, main, sup)
+
+# ------------------------------------------------------------------ histories (kind tri.hist)
+# op signatures: n index/size, s scalar, v vector, t three diagonals
+HOPS = {"set": "nns", "tip": "", "tr": "", "clone": "", "adds": "s", "subs": "s", "muls": "s", "divs": "s", "neg": "", "scale": "s",
+        "div": "s", "lscale": "s", "addt": "t", "subt": "t", "resize": "n", "dump": "", "views": "", "mul": "v", "solve": "v"}
+HVIEWS = ("dump", "views", "mul", "solve")
+
+def fdiv(x, s):
+    """IEEE quotient (python raises on a zero divisor)"""
+    import numpy as np
+    with np.errstate(all='ignore'):
+        if isinstance(x, complex) or isinstance(s, complex): return complex(np.complex128(x) / np.complex128(s))
+        return float(np.float64(x) / np.float64(s))
+
+def ctor_state(elt, ctor):
+    z = zero_of(elt)
+    w = ctor[0]
+    if w in ("vecs", "vectors"): return (list(ctor[1][0]), list(ctor[1][1]), list(ctor[1][2]))
+    if w == "elements":
+        a, b, c, n = ctor[1], ctor[2], ctor[3], ctor[4]
+        return ([a] * (n - 1), [b] * n, [c] * (n - 1))
+    if w == "new":
+        n = ctor[1]; return ([z] * (n - 1), [z] * n, [z] * (n - 1))
+    raise ValueError(w)
+
+def apply_op(elt, t, op):
+    """the dense twin's operation, restricted to the three stored diagonals (T += s acts on the stored elements)"""
+    sub, main, sup = list(t[0]), list(t[1]), list(t[2])
+    name, a = op[0], op[1:]
+    n = len(main)
+    def ew(f): return ([f(x) for x in sub], [f(x) for x in main], [f(x) for x in sup])
+    if name == "set":
+        i, j, x = a
+        if i == j: main[i] = x
+        elif i == j + 1: sub[j] = x
+        elif i + 1 == j: sup[i] = x
+        else: raise ValueError("history generator wrote outside the band")
+        return (sub, main, sup)
+    if name in ("tip", "tr"): return (sup, main, sub)
+    if name == "clone": return (sub, main, sup)
+    if name == "adds": return ew(lambda x: x + a[0])
+    if name == "subs": return ew(lambda x: x - a[0])
+    if name in ("muls", "scale"): return ew(lambda x: x * a[0])
+    if name == "lscale": return ew(lambda x: a[0] * x)
+    if name in ("divs", "div"): return ew((lambda x: x / a[0]) if elt == 'rat' else (lambda x: fdiv(x, a[0])))
+    if name == "neg": return ew(lambda x: -x)
+    if name in ("addt", "subt"):
+        t2 = a[0]
+        f = (lambda x, y: x + y) if name == "addt" else (lambda x, y: x - y)
+        return tuple([f(x, y) for x, y in zip(d, e)] for d, e in zip((sub, main, sup), t2))
+    if name == "resize":
+        z = zero_of(elt); m = a[0]
+        return ([z] * (m - 1), [z] * m, [z] * (m - 1))
+    raise ValueError(name)
+
+def hist_line_term(elt, ctor, ops):
+    w = ctor[0]
+    if w in ("vecs", "vectors"): line = "tri.hist %s %s" % (w, t3_line(elt, ctor[1]))
+    elif w == "elements": line = "tri.hist elements %s %s %s %d" % (tok_scalar(elt, ctor[1]), tok_scalar(elt, ctor[2]), tok_scalar(elt, ctor[3]), ctor[4])
+    else: line = "tri.hist new %d" % ctor[1]
+    t = ctor_state(elt, ctor)
+    parts = []
+    for op in ops:
+        name, a = op[0], op[1:]
+        toks = [name]
+        for k, x in zip(HOPS[name], a):
+            if k == "n": toks.append(str(x))
+            elif k == "s": toks.append(tok_scalar(elt, x))
+            elif k == "v": toks.append(tok_vec(elt, x))
+            elif k == "t": toks.append(t3_line(elt, x))
+        line += " " + " ".join(toks) + " ;"
+        if name == "dump": parts.append("(@run_with_vecs %s %s %s)" % (A(elt), F(elt), t3_coq(elt, t)))
+        elif name == "views": parts.append("(@run_views %s %s %s)" % (A(elt), F(elt), t3_coq(elt, t)))
+        elif name == "mul": parts.append("(@run_mul %s %s %s %s)" % (A(elt), F(elt), t3_coq(elt, t), coq_vec(elt, a[0])))
+        elif name == "solve": parts.append("(@run_solve %s %s %s %s)" % (A(elt), F(elt), t3_coq(elt, t), coq_vec(elt, a[0])))
+        else: t = apply_op(elt, t, op)
+    # the model side of a history: the model's single-shot runners on the state the dense twin has reached
+    return line, "List.concat %s" % coq_list(parts)
+
+MUTS = ["set-main", "set-sub", "set-sup", "tip", "tr", "clone", "adds", "subs", "muls", "divs", "neg", "scale", "div", "lscale", "addt", "subt", "resize"]
+INEXACT_CPLX = ("muls", "divs", "scale", "div")      # complex products/quotients: judged with a tolerance in the arith families, not replayed here
+
+def gen_mut(rng, elt, n, m):
+    """one valid mutating op of class m on an n x n matrix"""
+    s = (lambda nz=False: sp(rng, elt, nz) if rng.chance(1, 2) else val(rng, elt, nz))
+    if m.startswith("set"):
+        i = rng.below(n)
+        if n == 1 or m == "set-main": return ("set", i, i, s())
+        i = rng.below(n - 1)
+        return ("set", i + 1, i, s()) if m == "set-sub" else ("set", i, i + 1, s())
+    if m in ("tip", "tr", "clone", "neg"): return (m,)
+    if m in ("adds", "subs", "muls", "scale", "lscale"): return (m, s())
+    if m in ("divs", "div"): return (m, s(True))
+    if m in ("addt", "subt"): return (m, rtri(rng, elt, n, 1) if rng.chance(1, 2) else special_tri(rng, elt, n, rng.choice(SHAPES)))
+    if m == "resize": return ("resize", rng.range(1, 5))
+    raise ValueError(m)
+
+def gen_hist(rng, elt, n, m1, m2, ctor_kind):
+    if ctor_kind == "elements": ctor = ("elements", sp(rng, elt), val(rng, elt, nz=True), sp(rng, elt), n)
+    elif ctor_kind == "new": ctor = ("new", n)
+    else: ctor = (ctor_kind, dominant(rng, elt, n) if rng.chance(1, 2) else rtri(rng, elt, n, 1))
+    ops = []
+    t = ctor_state(elt, ctor)
+    if ctor_kind == "new":          # fill the zero matrix through IndexMut first (main diagonal, then a few off-diagonal entries)
+        for i in range(n):
+            ops.append(("set", i, i, val(rng, elt, nz=True)))
+        for i in range(n - 1):
+            if rng.chance(1, 2): ops.append(("set", i + 1, i, val(rng, elt)))
+            if rng.chance(1, 2): ops.append(("set", i, i + 1, val(rng, elt)))
+        for o in ops: t = apply_op(elt, t, o)
+    for k, m in enumerate((m1, m2)):
+        o = gen_mut(rng, elt, len(t[1]), m)
+        ops.append(o); t = apply_op(elt, t, o)
+        nn = len(t[1])
+        if k == 0: ops.append(("dump",))
+        else: ops += [("views",), ("mul", [val(rng, elt) for _ in range(nn)]), ("solve", [val(rng, elt) for _ in range(nn)])]
+    return {"ctor": ctor, "ops": ops}
+
 # ------------------------------------------------------------------ case builders
 def A(elt): return ARITH[elt]
 def F(elt): return FLAT[elt]
@@ -198,6 +409,8 @@ def mk(elt, kind, meta, family, nontrivial=True):
     elif kind == "empty":
         line = "tri.empty"
         term = "@run_empty %s %s" % (A(elt), F(elt))
+    elif kind == "hist":
+        line, term = hist_line_term(elt, meta["ctor"], meta["ops"])
     else:
         raise ValueError(kind)
     meta = dict(meta); meta["kind"] = kind
@@ -298,6 +511,58 @@ def generate(rng, tier):
         sub, main, sup = force_zero_pivot(g, n, k)
         t = ([float(x) for x in sub], [float(x) for x in main], [float(x) for x in sup])
         cases.append(mk('f64', "solve", {"t": t, "r": [val(g, 'f64') for _ in range(n)]}, "solve-f64-near-singular", True))
+    # ---- structured families (special value classes; see SPECIAL / special_tri / special_vec).  Thorough: every n; quick: n = 1..4 and
+    # a seeded rotation of three of the larger sizes (every size comes round with the seed)
+    g = rng.fork("special")
+    ssizes = list(range(1, NMAX + 1)) if thorough else [1, 2, 3, 4] + sorted(g.shuffle(range(5, NMAX + 1))[:3])
+    for n in ssizes:
+        for elt in ('rat', 'f64', 'cplx'):
+            shapes = SHAPES + (["hugetiny"] if elt != 'rat' else [])
+            chosen = shapes if thorough else g.shuffle(shapes)[:3]
+            for sh_ in chosen:
+                t = special_tri(g, elt, n, sh_)
+                cases.append(mk(elt, "views", {"t": t}, "views-special-" + elt, n >= 2))
+                for k in g.shuffle(range(6))[:(3 if thorough else 2)]:
+                    cases.append(mk(elt, "mul", {"t": t, "v": special_vec(g, elt, n, k)}, "mul-special-" + elt, n >= 2))
+                if sh_ != "hugetiny":
+                    # exact tier: judged by the exact pivots / residual whatever the matrix; floats: tied (no accuracy claim off dominance)
+                    cases.append(mk(elt, "solve", {"t": t, "r": special_vec(g, elt, n, g.below(6))}, "solve-special-" + elt, n >= 2))
+            # random matrices against structured vectors and right-hand sides
+            t = rtri(g, elt, n, pzero=2)
+            for k in g.shuffle(range(5))[:(3 if thorough else 2)]:
+                cases.append(mk(elt, "mul", {"t": t, "v": special_vec(g, elt, n, k)}, "mul-special-" + elt, n >= 2))
+            for _ in range(3 if thorough else rep):
+                t = special_dominant(g, elt, n)
+                cases.append(mk(elt, "solve", {"t": t, "r": special_vec(g, elt, n, g.below(6)), "dominant": True}, "solve-special-dominant-" + elt, n >= 2))
+            # arithmetic with special scalars (0, -0.0, 1, -1, 2, 1/2, complex axes / unit modulus) on random and on structured operands
+            for s_ in g.shuffle(SPECIAL[elt])[:(6 if thorough else 3)]:
+                t = rtri(g, elt, n, 1) if g.chance(1, 2) else special_tri(g, elt, n, g.choice(SHAPES))
+                t2 = rtri(g, elt, n, 1) if g.chance(1, 2) else special_tri(g, elt, n, g.choice(SHAPES))
+                cases.append(mk(elt, "arith", {"t": t, "t2": t2, "s": s_}, "arith-special-" + elt, n >= 2))
+        for elt in ('f64', 'cplx'):
+            n2 = g.range(1, NMAX)
+            if n2 != n:
+                cases.append(mk(elt, "arith", {"t": rtri(g, elt, n), "t2": rtri(g, elt, n2), "s": val(g, elt)}, "arith-mismatch-" + elt, True))
+    # f64 dominant systems with special off-diagonals at extreme power-of-two scales
+    for n in ssizes:
+        sub, main, sup = special_dominant(g, 'f64', n)
+        sc = 2.0 ** (g.range(150, 400) * g.choice([1, -1]))
+        t = ([x * sc for x in sub], [x * sc for x in main], [x * sc for x in sup])
+        cases.append(mk('f64', "solve", {"t": t, "r": [x * 2.0 ** g.range(-100, 100) for x in special_vec(g, 'f64', n, g.below(6))], "dominant": True},
+                        "solve-special-dominant-f64-scaled", n >= 2))
+    # ---- histories: every ordered pair of mutating operations, the state dumped after the first and every view taken after the second
+    # (views = accessors, every index, convert, transpose, det; product; solve), over every constructor.  Thorough: every pair;
+    # quick: a seeded third of the pairs (every pair comes round with the seed)
+    g = rng.fork("hist")
+    pairs = [(a, b) for a in MUTS for b in MUTS]
+    todo = g.shuffle(pairs) if thorough else g.shuffle(pairs)[:len(pairs) // 3]
+    for k, (m1, m2) in enumerate(todo):
+        elt = ['rat', 'rat', 'f64', 'rat', 'cplx', 'f64'][k % 6]
+        if "lscale" in (m1, m2): elt = 'f64'
+        elif elt == 'cplx' and (m1 in INEXACT_CPLX or m2 in INEXACT_CPLX): elt = 'rat'
+        n = [3, 1, 2, 4, 5, 2, 3, 6][g.below(8)]
+        h = gen_hist(g, elt, n, m1, m2, ["vecs", "vectors", "elements", "new"][g.below(4)])
+        cases.append(mk(elt, "hist", h, "history-" + elt, True))
     # interleave the kinds so that the model shards (consecutive blocks of cases) carry equal loads
     S = 16 if thorough else 8
     return [cases[i] for k in range(S) for i in range(k, len(cases), S)]
@@ -318,6 +583,21 @@ def case_from_json(j):
     if "t" in m: m["t"] = tuple(m["t"])
     if "t2" in m: m["t2"] = tuple(m["t2"])
     if "ws" in m: m["ws"] = [(w[0], w[1], _conv(elt, w[2])) for w in m["ws"]]
+    if kind == "hist":
+        c = m["ctor"]
+        if c[0] in ("vecs", "vectors"): m["ctor"] = (c[0], tuple(_conv(elt, list(c[1]))))
+        elif c[0] == "elements": m["ctor"] = ("elements", _conv(elt, c[1]), _conv(elt, c[2]), _conv(elt, c[3]), int(c[4]))
+        else: m["ctor"] = ("new", int(c[1]))
+        ops = []
+        for o in m["ops"]:
+            out = [o[0]]
+            for k, x in zip(HOPS[o[0]], o[1:]):
+                if k == "n": out.append(int(x))
+                elif k == "s": out.append(_conv(elt, x))
+                elif k == "v": out.append(_conv(elt, list(x)))
+                else: out.append(tuple(_conv(elt, list(x))))
+            ops.append(tuple(out))
+        m["ops"] = ops
     return mk(elt, kind, m, "corpus", True)
 
 # ------------------------------------------------------------------ the oracle: dense reference
@@ -375,6 +655,13 @@ def same(a, b):
 def same_list(a, b):
     return len(a) == len(b) and all(same(x, y) for x, y in zip(a, b))
 
+def same_val(a, b):
+    """equality of values: the results of arithmetic (0.0 = -0.0, NaN = NaN part by part)"""
+    if isinstance(a, (float, complex)) or isinstance(b, (float, complex)):
+        a, b = complex(a), complex(b)
+        return all((x == y) or (x != x and y != y) for x, y in ((a.real, b.real), (a.imag, b.imag)))
+    return a == b
+
 def valid_shape(t):
     n = len(t[1])
     return n >= 1 and len(t[0]) == n - 1 and len(t[2]) == n - 1
@@ -407,16 +694,270 @@ def oracle(case, items):
     except IndexError:
         return "answer ends early: %r" % (items[-4:],)
 
-def expect_tri(c, what, n, s, m, p):
+def expect_tri(c, what, n, s, m, p, eq=None):
     got = c.tri()
+    if eq is not None:
+        ok = got[0] == n and all(len(x) == len(y) and all(eq(u, v) for u, v in zip(x, y)) for x, y in zip(got[1:], (s, m, p)))
+        if ok: return None
+        return "%s: diagonals differ from the dense twin: got n=%d %r, expected n=%d %r" % (what, got[0], got[1:], n, (s, m, p))
     if got[0] != n or not (same_list(got[1], s) and same_list(got[2], m) and same_list(got[3], p)):
         return "%s: diagonals differ from the dense twin: got n=%d %r, expected n=%d %r" % (what, got[0], got[1:], n, (s, m, p))
+    return None
+
+def close_c(a, b, rel=1e-13):
+    """complex products / quotients: the same value up to a few roundings of the parts (the formula is not pinned by the property)"""
+    a, b = complex(a), complex(b)
+    if not (isfinite(a) and isfinite(b)): return True            # non-finite parts: tied to the model only
+    return abs(a - b) <= rel * max(abs(a), abs(b)) + 1e-300
+
+def expect_tri_tol(c, what, n, s, m, p):
+    got = c.tri()
+    ok = got[0] == n and all(len(x) == len(y) and all(close_c(u, v) for u, v in zip(x, y)) for x, y in zip(got[1:], (s, m, p)))
+    if not ok:
+        return "%s: diagonals differ from the dense twin: got n=%d %r, expected n=%d %r" % (what, got[0], got[1:], n, (s, m, p))
+    return None
+
+def det_ref(elt, t):
+    """exact determinant of the dense twin (rat / f64: Fractions; complex: mpmath at 60 digits) and perm|T| (the continuant of
+    the absolute values: any backward-stable evaluation of the determinant is within c*n*eps*perm|T| of the exact value)"""
+    n = len(t[1])
+    D = dense_of(t, elt)
+    if elt == 'cplx':
+        # exact: Gaussian elimination over Q(i) (pairs of Fractions), independent of the three-term recurrence
+        def cmul(a, b): return (a[0] * b[0] - a[1] * b[1], a[0] * b[1] + a[1] * b[0])
+        def cdiv(a, b):
+            d = b[0] * b[0] + b[1] * b[1]
+            return ((a[0] * b[0] + a[1] * b[1]) / d, (a[1] * b[0] - a[0] * b[1]) / d)
+        M = [[(Fraction(D[i][j].real), Fraction(D[i][j].imag)) for j in range(n)] for i in range(n)]
+        det = (Fraction(1), Fraction(0))
+        for k in range(n):
+            piv = next((i for i in range(k, n) if M[i][k] != (0, 0)), None)
+            if piv is None:
+                det = (Fraction(0), Fraction(0)); break
+            if piv != k:
+                M[piv], M[k] = M[k], M[piv]; det = (-det[0], -det[1])
+            det = cmul(det, M[k][k])
+            for i in range(k + 1, n):
+                if M[i][k] != (0, 0):
+                    f = cdiv(M[i][k], M[k][k])
+                    for j in range(k, n):
+                        q = cmul(f, M[k][j]); M[i][j] = (M[i][j][0] - q[0], M[i][j][1] - q[1])
+        try: ref = complex(float(det[0]), float(det[1]))
+        except OverflowError: ref = complex(math.inf, math.inf)
+    else:
+        ref = det_exact([Fraction(D[i][j]) for i in range(n) for j in range(n)], n)
+    ab = (lambda x: Fraction(abs(x.real)) + Fraction(abs(x.imag))) if elt == 'cplx' else (lambda x: abs(Fraction(x)))   # |re|+|im| >= |z|
+    p0, p1 = Fraction(1), ab(t[1][0])
+    run = [p1]
+    for k in range(1, n):
+        p0, p1 = p1, ab(t[1][k]) * p1 + ab(t[0][k - 1]) * ab(t[2][k - 1]) * p0
+        run.append(p1)
+    return ref, p1, run
+
+def judge_views(c, elt, t, eq=None):
+    """eq: None = stored values verbatim (bit patterns); same_val inside a history whose state is the result of arithmetic"""
+    n = len(t[1]); exact = (elt == 'rat')
+    D = dense_of(t, elt)
+    same_ = eq or same
+    same_list_ = (lambda a, b: len(a) == len(b) and all(same_(x, y) for x, y in zip(a, b)))
+    r = expect_tri(c, "accessors", n, t[0], t[1], t[2], eq=eq)
+    if r: return r
+    for i in range(n + 1):
+        for j in range(n + 1):
+            inband = i < n and j < n and abs(i - j) <= 1
+            if c.is_panic():
+                c.panic()
+                if inband: return "index (%d,%d) of an n=%d matrix panicked" % (i, j, n)
+            else:
+                x = c.scalar()
+                if not inband: return "index (%d,%d) outside the band/range of an n=%d matrix returned %r" % (i, j, n, x)
+                if not same_(x, D[i][j]): return "index (%d,%d) = %r, dense twin has %r" % (i, j, x, D[i][j])
+    if c.is_panic(): return "convert panicked for n=%d" % n
+    r_, c_, vals = c.mat()
+    if (r_, c_) != (n, n) or not same_list_(vals, [D[i][j] for i in range(n) for j in range(n)]):
+        return "convert differs from the dense twin (n=%d): %r" % (n, vals)
+    r = expect_tri(c, "transpose", n, t[2], t[1], t[0], eq=eq)
+    if r: return r
+    if c.is_panic(): return "convert of the transpose panicked"
+    r_, c_, vals = c.mat()
+    if (r_, c_) != (n, n) or not same_list_(vals, [D[j][i] for i in range(n) for j in range(n)]):
+        return "convert(transpose) is not the transposed dense twin (n=%d)" % n
+    if c.is_panic(): return "det panicked for n=%d" % n
+    d = c.scalar()
+    if exact:
+        ref = det_exact([D[i][j] for i in range(n) for j in range(n)], n)
+        if d != ref: return "det = %s, the dense twin has determinant %s (n=%d)" % (d, ref, n)
+    elif all(isfinite(x) for x in t[0] + t[1] + t[2]):
+        # floats: any backward-stable evaluation of the (multilinear) determinant is within c*n*eps*perm(|T|) of the
+        # exact value; perm(|T|) of a tridiagonal matrix is the continuant of the absolute values
+        ref, p1, run = det_ref(elt, t)
+        mags = [abs(x) for x in t[0] + t[1] + t[2] if x != 0]
+        floor = Fraction(0)
+        if mags and (max(mags) > 1e30 or min(mags) < 1e-30):
+            # entries at extreme scales (family hugetiny): a leading minor may leave the binary64 range (overflow, or underflow followed by
+            # growth), which the bound does not account for -- nothing is demanded then
+            if any(x >= Fraction(2) ** 1000 or (x != 0 and x < Fraction(1, 2 ** 900)) for x in run): return None
+            floor = Fraction(1, 2 ** 1000)
+        if elt == 'f64':
+            if not isfinite(d) or abs(Fraction(d) - ref) > Fraction(1, 10 ** 11) * p1 + floor:
+                return "f64 det = %r, the dense twin has determinant %s (n=%d; allowed error 1e-11 * perm|T| = %g)" % (d, float(ref), n, float(p1) * 1e-11)
+        else:
+            if p1 >= Fraction(2) ** 1000: return None
+            if not isfinite(d) or abs(d - ref) > 1e-11 * float(p1) + 1e-300:
+                return "complex det = %r, the dense twin has determinant %r (n=%d; allowed error 1e-11 * perm|T| = %g)" % (d, ref, n, float(p1) * 1e-11)
+    return None
+
+def judge_mul(c, elt, t, v, nitems=None):
+    n = len(t[1]); exact = (elt == 'rat')
+    D = dense_of(t, elt)
+    if len(v) != n:
+        return None if c.is_panic() else "product with a vector of length %d (n=%d) was answered" % (len(v), n)
+    if c.is_panic(): return "T*v panicked (%s) for n=%d" % (c.panic(), n)
+    w = c.vec()
+    if len(w) != n: return "T*v has %d components for n=%d" % (len(w), n)
+    if exact:
+        ref = [sum((D[i][j] * v[j] for j in range(n)), zero_of(elt)) for i in range(n)]
+        if w != ref: return "T*v = %r, dense twin gives %r" % (w, ref)
+    else:
+        if not all(isfinite(x) for r_ in D for x in r_) or not all(isfinite(x) for x in v): return None
+        # row by row, against the exact row sum, scaled by |T||v| of that row (cancellation inside a row is not an error of the product)
+        for i in range(n):
+            js = [j for j in (i - 1, i, i + 1) if 0 <= j < n]
+            if elt == 'f64':
+                ref = sum(Fraction(D[i][j]) * Fraction(v[j]) for j in js)
+                sc = sum(abs(Fraction(D[i][j]) * Fraction(v[j])) for j in js)
+                if not isfinite(w[i]): 
+                    if sc < Fraction(2) ** 1000: return "T*v component %d = %r, dense twin gives %g" % (i, w[i], float(ref))
+                    continue
+                if abs(Fraction(w[i]) - ref) > Fraction(1, 10 ** 12) * sc + Fraction(1, 2 ** 1000):
+                    return "T*v component %d = %r, dense twin gives %r" % (i, w[i], float(ref))
+            else:
+                ref = sum((D[i][j] * v[j] for j in js), 0j)
+                sc = sum(abs(D[i][j]) * abs(v[j]) for j in js)
+                if not isfinite(ref) or not isfinite(sc): continue
+                if not isfinite(w[i]) or abs(w[i] - ref) > 1e-12 * sc + 1e-300:
+                    return "T*v component %d = %r, dense twin gives %r" % (i, w[i], ref)
+        # the pre-existing, coarser clause (kept): 1e-12 * max|T| * max|v|
+        ref = [sum((D[i][j] * v[j] for j in range(n)), zero_of(elt)) for i in range(n)]
+        if all(isfinite(x) for x in ref):
+            sc = max([abs(D[i][j]) for i in range(n) for j in range(n)]) * max([abs(x) for x in v] + [0.0]) + 1e-300
+            for i in range(n):
+                if isfinite(sc) and abs(w[i] - ref[i]) > 1e-12 * sc: return "T*v component %d = %r, dense twin gives %r" % (i, w[i], ref[i])
+    return None
+
+def read_solve_answer(c):
+    """('panic', class) | ('refused', code, class) | ('value', u)"""
+    if c.is_panic(): return ('panic', c.panic())
+    if c.it[c.p][0] == 'i' and c.p + 1 < len(c.it) and c.it[c.p + 1][0] == 'P':
+        code = c.int(); return ('refused', code, c.panic())
+    return ('value', c.vec())
+
+def structural_zero_pivot(elt, t):
+    """floats: the first step k whose pivot is exactly zero in ANY faithful evaluation of the recurrence -- main[k] = 0 and (k = 0 or
+    sub[k-1] = 0 or sup[k-1] = 0) -- provided every earlier pivot, replayed here, is finite and far from cancellation.  None otherwise."""
+    sub, main, sup = t
+    n = len(main)
+    if not all(isfinite(x) for x in list(sub) + list(main) + list(sup)): return None
+    big = max([abs(x) for x in list(sub) + list(main) + list(sup)] + [0.0])
+    if big > 1e100 or (big != 0 and min(abs(x) for x in list(sub) + list(main) + list(sup) if x != 0) < 1e-100): return None
+    beta = main[0]
+    for k in range(n):
+        if k > 0:
+            gamma = fdiv(sup[k - 1], beta)
+            prod = sub[k - 1] * gamma
+            if main[k] == 0 and (sub[k - 1] == 0 or sup[k - 1] == 0): return k
+            beta = main[k] - prod
+            if not isfinite(beta) or abs(beta) <= 1e-3 * max(abs(main[k]), abs(prod)): return None
+        elif main[0] == 0: return 0
+    return None
+
+def judge_solve(c, elt, t, r, meta):
+    n = len(t[1]); exact = (elt == 'rat')
+    D = dense_of(t, elt)
+    if len(r) != n:
+        ans = read_solve_answer(c)
+        return None if ans[0] != 'value' else "solve with a right-hand side of length %d (n=%d) was answered" % (len(r), n)
+    ans = read_solve_answer(c)
+    if exact:
+        pv = pivots_exact(*t)
+        zk = next((k for k, b in enumerate(pv) if b == 0), None)
+    else:
+        pv = None
+        zk = structural_zero_pivot(elt, t)
+        if zk is not None: _count("solve %s structural zero pivot judged" % elt)
+    if zk is not None:
+        # elimination meets a zero pivot at step zk: must refuse, with a zero-pivot message
+        if ans[0] == 'panic': return "solve panicked without a recognisable message"
+        if ans[0] == 'value': return "zero pivot at step %d (n=%d) but solve returned a value: %r" % (zk, n, ans[1][:6])
+        code, cls = ans[1], ans[2]
+        if cls != 'guard':
+            return "zero pivot at step %d (n=%d): solve died with a %s panic instead of its zero-pivot refusal" % (zk, n, cls)
+        if code not in (1, 2): return "solve refused, but the message does not mention a zero pivot / zero diagonal (code %d)" % code
+        if (code == 1) != (zk == 0): return "zero pivot at step %d but the message is the %s one" % (zk, "leading-diagonal" if code == 1 else "later-pivot")
+        return None
+    if exact:
+        if ans[0] != 'value':
+            return "no zero pivot is met (pivots %s) but solve panicked: %r" % (pv, ans)
+        u = ans[1]
+        if len(u) != n: return "solution has %d components for n=%d" % (len(u), n)
+        res = [r[i] - sum(D[i][j] * u[j] for j in range(n)) for i in range(n)]
+        if any(x != 0 for x in res): return "solve returned u with r - T u = %r (exact arithmetic, no zero pivot)" % res
+        return None
+    # floats: accuracy is demanded of diagonally dominant systems only
+    if not meta.get("dominant"): return None
+    if ans[0] != 'value': return "solve panicked on a diagonally dominant %s system (n=%d)" % (elt, n)
+    u = ans[1]
+    if len(u) != n: return "solution has %d components for n=%d" % (len(u), n)
+    if not all(isfinite(x) for x in u): return "non-finite solution of a diagonally dominant system"
+    res = max(abs(r[i] - sum(D[i][j] * u[j] for j in range(n))) for i in range(n))
+    normT = max(sum(abs(D[i][j]) for j in range(n)) for i in range(n))
+    bound = 1e-11 * (normT * max(abs(x) for x in u) + max(abs(x) for x in r))
+    if res > bound: return "diagonally dominant %s system: backward error %g exceeds %g" % (elt, res, bound)
+    if all(x == 0 for x in r) and any(x != 0 for x in u):
+        return "diagonally dominant %s system with a zero right-hand side: solution %r is not zero" % (elt, u[:6])
+    return None
+
+def arith_steps(elt, t, t2, s):
+    """[(what, expected three diagonals or None, must_panic, tolerant)] in the executor's order"""
+    n, n2 = len(t[1]), len(t2[1])
+    exact = (elt == 'rat')
+    def ew(f, a, b=None):
+        if b is None: return [[f(x) for x in d] for d in a]
+        return [[f(x, y) for x, y in zip(da, db)] for da, db in zip(a, b)]
+    if exact: dv = lambda x: x / s
+    else: dv = lambda x: fdiv(x, s)
+    tolm = (elt == 'cplx')           # complex product / quotient: value up to rounding of the parts; everything else is one IEEE operation per stored entry
+    div0 = exact and s == 0          # exact tier: division by zero must be refused; floats: IEEE quotient (inf / nan), tied to the model
+    steps = [("neg", ew(lambda x: -x, t), False, False),
+             ("T + T2", ew(lambda x, y: x + y, t, t2), n != n2, False),
+             ("T - T2", ew(lambda x, y: x - y, t, t2), n != n2, False),
+             ("T * s", ew(lambda x: x * s, t), False, tolm)]
+    if elt == 'f64': steps.append(("s * T", ew(lambda x: s * x, t), False, False))
+    steps += [("T / s", None if div0 else ew(dv, t), div0, tolm),
+              ("T += s", ew(lambda x: x + s, t), False, False),
+              ("T -= s", ew(lambda x: x - s, t), False, False),
+              ("T *= s", ew(lambda x: x * s, t), False, tolm),
+              ("T /= s", None if div0 else ew(dv, t), div0, tolm)]
+    return steps
+
+def judge_arith(c, elt, t, t2, s):
+    n = len(t[1])
+    if c.is_panic(): return "well-shaped diagonals rejected"
+    for what, exp, mp, tol in arith_steps(elt, t, t2, s):
+        if mp:
+            if not c.is_panic(): return "%s was answered instead of refused" % what
+            c.panic(); continue
+        if c.is_panic(): return "%s panicked" % what
+        if elt != 'rat' and s == 0 and what in ("T / s", "T /= s"):
+            c.tri(); continue         # float division by zero: inf / nan patterns, tied to the model only
+        if tol: r = expect_tri_tol(c, what, n, exp[0], exp[1], exp[2])
+        else: r = expect_tri(c, what, n, exp[0], exp[1], exp[2], eq=(None if elt == 'rat' else same_val))
+        if r: return r
     return None
 
 def _oracle(case, items):
     m = case.meta; kind = m["kind"]; elt = case.elt
     c = Cur(items, elt)
-    exact = (elt == 'rat')
     if kind == "empty":
         return None
     if kind == "ctor":
@@ -432,50 +973,30 @@ def _oracle(case, items):
         if n == 0: return None
         if c.is_panic(): return "%s(%d) panicked" % (w, n)
         z = zero_of(elt)
-        e = m["e"] if w == "with_elements" else [z, z, z]
+        if w == "resize": e = [z, z, z]
+        else: e = m["e"] if w == "with_elements" else [z, z, z]
         return expect_tri(c, w, n, [e[0]] * (n - 1), [e[1]] * n, [e[2]] * (n - 1))
+    if kind == "hist":
+        t = ctor_state(elt, m["ctor"])
+        if c.is_panic(): return "constructor %s panicked on well-shaped arguments" % m["ctor"][0]
+        for k, op in enumerate(m["ops"]):
+            what = "op %d %s" % (k, op[0])
+            heq = None if elt == 'rat' else same_val       # the state of a history is the result of arithmetic: equality of values
+            if op[0] == "dump": r = expect_tri(c, what + " (state after the preceding operations)", len(t[1]), t[0], t[1], t[2], eq=heq)
+            elif op[0] == "views": r = judge_views(c, elt, t, eq=heq)
+            elif op[0] == "mul": r = judge_mul(c, elt, t, op[1])
+            elif op[0] == "solve": r = judge_solve(c, elt, t, op[1], {})
+            else:
+                if c.is_panic(): return "%s: valid operation panicked (%s)" % (what, c.panic())
+                t = apply_op(elt, t, op); r = None
+            if r: return "%s: %s" % (what, r)
+        if not c.done(): return "answer has %d trailing items" % (len(c.it) - c.p)
+        return None
     t = m["t"]
     n = len(t[1])
-    D = dense_of(t, elt)
     if kind == "views":
         if c.is_panic(): return "well-shaped diagonals rejected"
-        r = expect_tri(c, "accessors", n, t[0], t[1], t[2])
-        if r: return r
-        for i in range(n + 1):
-            for j in range(n + 1):
-                inband = i < n and j < n and abs(i - j) <= 1
-                if c.is_panic():
-                    c.panic()
-                    if inband: return "index (%d,%d) of an n=%d matrix panicked" % (i, j, n)
-                else:
-                    x = c.scalar()
-                    if not inband: return "index (%d,%d) outside the band/range of an n=%d matrix returned %r" % (i, j, n, x)
-                    if not same(x, D[i][j]): return "index (%d,%d) = %r, dense twin has %r" % (i, j, x, D[i][j])
-        if c.is_panic(): return "convert panicked for n=%d" % n
-        r_, c_, vals = c.mat()
-        if (r_, c_) != (n, n) or not same_list(vals, [D[i][j] for i in range(n) for j in range(n)]):
-            return "convert differs from the dense twin (n=%d): %r" % (n, vals)
-        r = expect_tri(c, "transpose", n, t[2], t[1], t[0])
-        if r: return r
-        if c.is_panic(): return "convert of the transpose panicked"
-        r_, c_, vals = c.mat()
-        if (r_, c_) != (n, n) or not same_list(vals, [D[j][i] for i in range(n) for j in range(n)]):
-            return "convert(transpose) is not the transposed dense twin (n=%d)" % n
-        if c.is_panic(): return "det panicked for n=%d" % n
-        d = c.scalar()
-        if exact:
-            ref = det_exact([D[i][j] for i in range(n) for j in range(n)], n)
-            if d != ref: return "det = %s, the dense twin has determinant %s (n=%d)" % (d, ref, n)
-        elif elt == 'f64' and all(isfinite(x) for x in t[0] + t[1] + t[2]):
-            # floats: any backward-stable evaluation of the (multilinear) determinant is within c*n*eps*perm(|T|) of the
-            # exact value; perm(|T|) of a tridiagonal matrix is the continuant of the absolute values
-            ref = det_exact([Fraction(D[i][j]) for i in range(n) for j in range(n)], n)
-            p0, p1 = Fraction(1), abs(Fraction(t[1][0]))
-            for k in range(1, n):
-                p0, p1 = p1, abs(Fraction(t[1][k])) * p1 + abs(Fraction(t[0][k - 1]) * Fraction(t[2][k - 1])) * p0
-            if not isfinite(d) or abs(Fraction(d) - ref) > Fraction(1, 10 ** 11) * p1:
-                return "f64 det = %r, the dense twin has determinant %s (n=%d; allowed error 1e-11 * perm|T| = %g)" % (d, float(ref), n, float(p1) * 1e-11)
-        return None
+        return judge_views(c, elt, t)
     if kind == "sets":
         if c.is_panic(): return "well-shaped diagonals rejected"
         sub, main, sup = list(t[0]), list(t[1]), list(t[2])
@@ -495,83 +1016,10 @@ def _oracle(case, items):
             if r: return r
         return None
     if kind == "arith":
-        t2, s = m["t2"], m["s"]
-        if not exact: return None            # values tied to the float model; the exact laws are checked over Rat
-        if c.is_panic(): return "well-shaped diagonals rejected"
-        n2 = len(t2[1])
-        def ew(f, a, b=None):
-            if b is None: return [[f(x) for x in d] for d in a]
-            return [[f(x, y) for x, y in zip(da, db)] for da, db in zip(a, b)]
-        def chk(what, exp, must_panic=False):
-            if must_panic:
-                if not c.is_panic(): return "%s was answered instead of refused" % what
-                c.panic(); return None
-            if c.is_panic(): return "%s panicked" % what
-            return expect_tri(c, what, n, exp[0], exp[1], exp[2])
-        steps = [("neg", ew(lambda x: -x, t), False),
-                 ("T + T2", ew(lambda x, y: x + y, t, t2), n != n2),
-                 ("T - T2", ew(lambda x, y: x - y, t, t2), n != n2),
-                 ("T * s", ew(lambda x: x * s, t), False),
-                 ("T / s", None if s == 0 else ew(lambda x: x / s, t), s == 0),
-                 ("T += s", ew(lambda x: x + s, t), False),
-                 ("T -= s", ew(lambda x: x - s, t), False),
-                 ("T *= s", ew(lambda x: x * s, t), False),
-                 ("T /= s", None if s == 0 else ew(lambda x: x / s, t), s == 0)]
-        for what, exp, mp in steps:
-            r = chk(what, exp, mp)
-            if r: return r
-        return None
+        return judge_arith(c, elt, t, m["t2"], m["s"])
     if kind == "mul":
-        v = m["v"]
         if c.is_panic() and c.p == 0 and len(items) == 1 and not valid_shape(t): return None
-        if len(v) != n:
-            return None if c.is_panic() else "product with a vector of length %d (n=%d) was answered" % (len(v), n)
-        if c.is_panic(): return "T*v panicked (%s) for n=%d" % (c.panic(), n)
-        w = c.vec()
-        if len(w) != n: return "T*v has %d components for n=%d" % (len(w), n)
-        ref = [sum((D[i][j] * v[j] for j in range(n)), zero_of(elt)) for i in range(n)]
-        if exact:
-            if w != ref: return "T*v = %r, dense twin gives %r" % (w, ref)
-        else:
-            if not all(isfinite(x) for x in ref): return None
-            sc = max([abs(D[i][j]) for i in range(n) for j in range(n)]) * max([abs(x) for x in v] + [0.0]) + 1e-300
-            for i in range(n):
-                if abs(w[i] - ref[i]) > 1e-12 * sc: return "T*v component %d = %r, dense twin gives %r" % (i, w[i], ref[i])
-        return None
+        return judge_mul(c, elt, t, m["v"])
     if kind == "solve":
-        r = m["r"]
-        if len(r) != n:
-            if not c.is_panic(): c.int()
-            return None if c.is_panic() else "solve with a right-hand side of length %d (n=%d) was answered" % (len(r), n)
-        if exact:
-            pv = pivots_exact(*t)
-            zk = next((k for k, b in enumerate(pv) if b == 0), None)
-            if zk is not None:
-                # elimination meets a zero pivot at step zk: must refuse, with a zero-pivot message
-                if c.is_panic(): return "solve panicked without a recognisable message"
-                if items[-1][0] != 'P': return "zero pivot at step %d (n=%d) but solve returned a value: %r" % (zk, n, items[:6])
-                code = c.int()
-                if items[-1][1] != 'guard':
-                    return "zero pivot at step %d (n=%d): solve died with a %s panic instead of its zero-pivot refusal" % (zk, n, items[-1][1])
-                if code not in (1, 2): return "solve refused, but the message does not mention a zero pivot / zero diagonal (code %d)" % code
-                if (code == 1) != (zk == 0): return "zero pivot at step %d but the message is the %s one" % (zk, "leading-diagonal" if code == 1 else "later-pivot")
-                return None
-            if items and items[-1][0] == 'P':
-                return "no zero pivot is met (pivots %s) but solve panicked: %r" % (pv, items)
-            u = c.vec()
-            if len(u) != n: return "solution has %d components for n=%d" % (len(u), n)
-            res = [r[i] - sum(D[i][j] * u[j] for j in range(n)) for i in range(n)]
-            if any(x != 0 for x in res): return "solve returned u with r - T u = %r (exact arithmetic, no zero pivot)" % res
-            return None
-        # floats: accuracy is demanded of diagonally dominant systems only
-        if not m.get("dominant"): return None
-        if items and items[-1][0] == 'P': return "solve panicked on a diagonally dominant %s system (n=%d)" % (elt, n)
-        u = c.vec()
-        if len(u) != n: return "solution has %d components for n=%d" % (len(u), n)
-        if not all(isfinite(x) for x in u): return "non-finite solution of a diagonally dominant system"
-        res = max(abs(r[i] - sum(D[i][j] * u[j] for j in range(n))) for i in range(n))
-        normT = max(sum(abs(D[i][j]) for j in range(n)) for i in range(n))
-        bound = 1e-11 * (normT * max(abs(x) for x in u) + max(abs(x) for x in r))
-        if res > bound: return "diagonally dominant %s system: backward error %g exceeds %g" % (elt, res, bound)
-        return None
+        return judge_solve(c, elt, t, m["r"], m)
     return None
